@@ -364,10 +364,19 @@ func (cc *Conn) ProcessReceivedMessageWithHandler(req *pool.Message, handler Han
 	}
 }
 
+// isRequest reports whether r carries a method code (0.01 - 0.31). Tokens are scoped per direction (RFC 7252
+// 5.3.1): a request of the peer may carry the token bytes of one of our outstanding requests - it is a request,
+// not the response that request is waiting for.
+func isRequest(r *pool.Message) bool {
+	return r.Code() >= codes.GET && r.Code() < codes.Code(0x20)
+}
+
 func (cc *Conn) blockwiseHandle(w *responsewriter.ResponseWriter[*Conn], r *pool.Message) {
-	if h, ok := cc.tokenHandlerContainer.Load(r.Token().Hash()); ok {
-		h(w, r)
-		return
+	if !isRequest(r) {
+		if h, ok := cc.tokenHandlerContainer.Load(r.Token().Hash()); ok {
+			h(w, r)
+			return
+		}
 	}
 	cc.observationHandler.Handle(w, r)
 }
@@ -377,9 +386,11 @@ func (cc *Conn) handle(w *responsewriter.ResponseWriter[*Conn], r *pool.Message)
 		cc.blockWise.Handle(w, r, cc.blockwiseSZX, cc.Session().maxMessageSize, cc.blockwiseHandle)
 		return
 	}
-	if h, ok := cc.tokenHandlerContainer.LoadAndDelete(r.Token().Hash()); ok {
-		h(w, r)
-		return
+	if !isRequest(r) {
+		if h, ok := cc.tokenHandlerContainer.LoadAndDelete(r.Token().Hash()); ok {
+			h(w, r)
+			return
+		}
 	}
 	cc.observationHandler.Handle(w, r)
 }
